@@ -14,10 +14,10 @@
 using namespace sim; using namespace msggen;
 
 enum { ST_RUNS, ST_EVALS, ST_MSG, ST_BUNDLE, F_CAP_SHORT, F_CAP_EXACT, F_CAP_ZERO, F_CAP_GENEROUS, F_LINK_MAXMSG, F_REPLY_8192,
-       P_VARARGS, P_ARRAY, P_ARGVAL, P_NULLBUF, P_NESTED, P_EMPTY_BUNDLE, P_NULL_BLOB, P_LINK_DROPPED, P_LINK_PASSED, P_REPLY_TOO_BIG, P_REPLY_FITS, P_BIG, P_CTOR_DISAGREE, P_AV_RANGE, P_GIANT, ST_N };
+       P_VARARGS, P_ARRAY, P_ARGVAL, P_NULLBUF, P_NESTED, P_EMPTY_BUNDLE, P_NULL_BLOB, P_LINK_DROPPED, P_LINK_PASSED, P_REPLY_TOO_BIG, P_REPLY_FITS, P_BIG, P_CTOR_DISAGREE, P_AV_RANGE, P_GIANT, P_BUNDLE_GT8, ST_N };
 static const char *STAT_NAMES[ST_N] = { "runs", "evaluations", "objects.messages", "objects.bundles", "fault.capacity_short", "fault.capacity_exact", "fault.capacity_zero", "fault.capacity_generous", "fault.link_maxmsg_around_size", "fault.reply_buffer_8192_boundary",
        "probe.varargs_constructor", "probe.array_constructor", "probe.argval_constructor", "probe.null_buffer_size_query", "probe.nested_bundle", "probe.empty_bundle", "probe.null_blob", "probe.link_dropped_oversize", "probe.link_passed_exact_fit",
-       "probe.reply_larger_than_buffer", "probe.reply_fits_buffer", "probe.object_over_256_bytes", "constructors_disagree_on_size", "probe.argval_list_with_range", "probe.message_whose_size_exceeds_32_bits" };
+       "probe.reply_larger_than_buffer", "probe.reply_fits_buffer", "probe.object_over_256_bytes", "constructors_disagree_on_size", "probe.argval_list_with_range", "probe.message_whose_size_exceeds_32_bits", "probe.bundle_with_more_than_8_elements" };
 
 static const char *VT[] = {"", "i", "s", "b", "f", "is", "si", "sb", "ifs", "hd", "tS", "c", "r", "m", "TFNI", "i[ii]", "sbi", "bs", "dh", "ssss", "[sT]", "ib", "NIf", "mm"};
 static const int NVT = sizeof VT / sizeof VT[0];
@@ -167,9 +167,9 @@ struct CapWorld : World {
         } else {
             stat_add(ST_BUNDLE); res.nontrivial = true; if (e.kids.empty()) stat_add(P_EMPTY_BUNDLE);
             std::vector<std::vector<char>> kids; for (auto &kk : e.kids) kids.push_back(encode(kk));
-            const char *p[8] = {0}; int n = (int)std::min<size_t>(kids.size(), 8); for (int i = 0; i < n; i++) p[i] = kids[i].data();
+            const char *p[16] = {0}; int n = (int)std::min<size_t>(kids.size(), 16); for (int i = 0; i < n; i++) p[i] = kids[i].data(); if (n > 8) stat_add(P_BUNDLE_GT8);
             for (size_t c = 0; c <= needed + 8 && res.cls.empty(); c++) {
-                Guarded g(c); size_t r = rtosc_bundle(g.p, c, e.tt, n, p[0], p[1], p[2], p[3], p[4], p[5], p[6], p[7]); stat_add(ST_EVALS);
+                Guarded g(c); size_t r = rtosc_bundle(g.p, c, e.tt, n, p[0], p[1], p[2], p[3], p[4], p[5], p[6], p[7], p[8], p[9], p[10], p[11], p[12], p[13], p[14], p[15]); stat_add(ST_EVALS);
                 stat_add(c == 0 ? F_CAP_ZERO : c < needed ? F_CAP_SHORT : c == needed ? F_CAP_EXACT : F_CAP_GENEROUS);
                 long d = g.damaged();
                 if (d != LONG_MIN) { snprintf(b, sizeof b, "rtosc_bundle with capacity %zu (needed %zu, %d elements): byte at offset %ld of the destination was written", c, needed, n, d); fail("OVERRUN", b); break; }
